@@ -323,6 +323,41 @@ func (a *Adv) DoubleSpendProbes() int {
 			}
 		}
 	}
+	// a contract revised by an earlier transaction of the block and resolved (or revised again) by a later one: the later
+	// parent relabelled as created-in-block (unassigned leaf index, no proof). If that passed, the resolution would be
+	// filed under a new leaf, the contract's real leaf would stay unresolved, and a later block could resolve it again.
+	{
+		revised := map[types.FileContractID]bool{}
+		for ti, txn := range a.Honest.V2Transactions() {
+			emitRelabelled := func(kind string, set func(x *types.V2Transaction)) {
+				blk := CloneBlock(a.Honest)
+				set(&blk.V2.Transactions[ti])
+				SignV2(a.CS, &blk.V2.Transactions[ti], SignOpts{})
+				if a.emit(blk, "second-use-of-in-block-revised-contract/"+kind+"-parent-relabelled-ephemeral", "reject", nil, nil) {
+					n++
+				}
+			}
+			for ri, r := range txn.FileContractRevisions {
+				if revised[r.Parent.ID] {
+					ri := ri
+					emitRelabelled("revision", func(x *types.V2Transaction) {
+						x.FileContractRevisions[ri].Parent.StateElement = types.StateElement{LeafIndex: types.UnassignedLeafIndex}
+					})
+				}
+			}
+			for ri, r := range txn.FileContractResolutions {
+				if revised[r.Parent.ID] {
+					ri := ri
+					emitRelabelled("resolution", func(x *types.V2Transaction) {
+						x.FileContractResolutions[ri].Parent.StateElement = types.StateElement{LeafIndex: types.UnassignedLeafIndex}
+					})
+				}
+			}
+			for _, r := range txn.FileContractRevisions {
+				revised[r.Parent.ID] = true
+			}
+		}
+	}
 	// a whole transaction that spends something, listed a second time verbatim (same transaction ID; for v2 also with its
 	// proofs and signatures, which the ID does not cover, left as they are)
 	for ti, txn := range a.Honest.Transactions {
